@@ -31,6 +31,27 @@ def gen_skeletons(work, pid, specs):
     return None
 
 
+def gen_extract(work, out_name, specs, ns="Ekit.Gen", imports="Ekit.Go.Basic"):
+    """run harness/extract (Go -> Lean translator for loop-free integer functions) on the scratch copy,
+    writing lean/Ekit/Generated/<out_name>.lean; returns an error string or None"""
+    binp, blog = work.build("extract")
+    if binp is None:
+        return "translator does not build: " + blog
+    out = os.path.join(core.LEAN, "Ekit", "Generated", out_name + ".lean")
+    tmp = os.path.join(work.dir, out_name + ".lean")
+    rc, log = core.sh([binp, "-root", work.repo, "-out", tmp, "-ns", ns, "-imports", imports] + list(specs),
+                      env=core.GOENV, timeout=120)
+    if rc != 0:
+        return "Go->Lean translator failed (the source left the translated subset): " + log
+    core.write_if_changed(out, open(tmp).read())
+    return None
+
+
+def pregen_slice(work):
+    """Ekit/Generated/Slice.lean: calCapacity from internal/slice/shrink.go (used by C04, C05)."""
+    return gen_extract(work, "Slice", ["internal/slice/shrink.go:calCapacity"])
+
+
 def lean_obligations(res, pid, extra_targets=()):
     """lake build of the property module + axiom audit + forbidden-token grep.
     Returns True iff every proof obligation of `pid` is discharged."""
